@@ -134,29 +134,20 @@ class DbInfo:
         gm = [op for op in ops if op.method == "get_mut"]
         ri = [op for op in ops if op.method == "remove_if"]
         if gm and ri:
-            for bb, c in f.calls():
-                if c.get("res") == "std::vec::Vec::<T, A>::retain":
-                    clos = [cid for cid, loc in c.get("clos", []) if cid in self.crate.fns]
-                    if not clos and len(c["args"]) > 1:
-                        # generic helper spliced into f: the predicate is a parameter there; follow the operand back to the
-                        # closure the caller built
-                        clos = self._closure_of_operand(f, c["args"][1])
-                    for cid in clos:
-                        cf = self.crate.fns.get(cid)
-                        if cf is None:
-                            continue
-                        shp = closure_predicate_shape(self.crate, cf)
-                        if shp and shp["cmp"] == "ne" and shp["capture_param"] is not None:
-                            # the sweep is unconditional: the loop that retains is entered on every path through f (an early
-                            # return that depends on what some other map currently holds makes the clear miss entries a
-                            # concurrent analysis of the same file has just written)
-                            from .rules.r1e import natural_loops
-                            loops = [(h, body) for h, _l, body in natural_loops(f) if bb in body]
-                            if loops:
-                                h = max(loops, key=lambda x: len(x[1]))[0]
-                                if h not in f.postdominators().get(0, set()) and not self._bypass_only_after_take(f, h):
-                                    continue
-                            return ("retain", shp["capture_param"])
+            for host, bb, c in retain_sites(self.crate, f):
+                shp = retain_predicate_shape(self.crate, f, host, c)
+                if shp and shp["cmp"] == "ne" and shp["capture_param"] is not None:
+                    if host is f:
+                        # the sweep is unconditional: the loop that retains is entered on every path through f (an early
+                        # return that depends on what some other map currently holds makes the clear miss entries a
+                        # concurrent analysis of the same file has just written)
+                        from .rules.r1e import natural_loops
+                        loops = [(h, body) for h, _l, body in natural_loops(f) if bb in body]
+                        if loops:
+                            h = max(loops, key=lambda x: len(x[1]))[0]
+                            if h not in f.postdominators().get(0, set()) and not self._bypass_only_after_take(f, h):
+                                continue
+                    return ("retain", shp["capture_param"])
         return None
 
     def _closure_of_operand(self, f, op, depth=0):
@@ -288,6 +279,79 @@ def closure_predicate_shape(crate, cf):
             capture_param = _param_of(pf, ops[idx])
     return {"cmp": "ne" if fnn.endswith("::ne") else "eq", "elem_field": elem[0][1], "capture": cap[0][1],
             "capture_param": capture_param}
+
+
+def retain_predicate_shape(crate, f, host, call):
+    """shape of the predicate of a `Vec::retain` call found in `host` (the function f itself or a closure built under f):
+    the closure handed to retain compares directly (closure_predicate_shape), or it is a wrapper `|e| !pred(e)` / `|e| pred(e)`
+    around a predicate closure that reached it as a captured value / parameter of a generic helper spliced into f."""
+    from .rules.r3d import _closures_in, _local_in_root
+    clos = [cid for cid, loc in call.get("clos", []) if cid in crate.fns]
+    if not clos and len(call["args"]) > 1:
+        clos = _closure_aggs(host, call["args"][1])
+    if len(clos) != 1:
+        return None
+    P = crate.fns[clos[0]]
+    shp = closure_predicate_shape(crate, P)
+    if shp:
+        return shp
+    # wrapper around another predicate
+    calls = [(bb, c) for bb, c in P.calls() if not c["span"][4].startswith("macro:")]
+    if len(calls) != 1 or calls[0][1].get("fn") not in ("std::ops::Fn::call", "std::ops::FnMut::call_mut", "std::ops::FnOnce::call_once"):
+        return None
+    bb, c = calls[0]
+    negated = False
+    res_l = place_local(c["dest"])
+    for b2, si, pl, rv, sp in P.assigns():
+        if place_local(pl) == 0 and rv[0] == "un" and rv[1] == "Not" and op_local(rv[2]) == res_l:
+            negated = True
+    if not negated and res_l != 0:
+        return None
+    # which closure is called?  a capture of P -> value in the enclosing closures -> local of f -> closure aggregate
+    closures = _closures_in(crate, f)
+    inner = None
+    root_local = _local_in_root(closures, f, P, op_local(c["args"][0])) if c["args"] and op_local(c["args"][0]) is not None else None
+    if root_local is not None:
+        qs = _closure_aggs(f, ["cp", root_local])
+        if len(qs) == 1:
+            inner = crate.fns.get(qs[0])
+    if inner is None:
+        return None
+    q = closure_predicate_shape(crate, inner)
+    if not q:
+        return None
+    if negated:
+        q = dict(q)
+        q["cmp"] = "ne" if q["cmp"] == "eq" else "eq"
+    return q
+
+
+def _closure_aggs(f, op, depth=0):
+    l = op_local(op)
+    if l is None or depth > 10:
+        return []
+    out = []
+    for d in f.whole_defs(l):
+        if d[0] == "assign":
+            rv = d[3]
+            if rv[0] == "agg" and rv[1][0] == "closure":
+                out.append(rv[1][1])
+            elif rv[0] == "use":
+                out += _closure_aggs(f, rv[1], depth + 1)
+            elif rv[0] == "ref":
+                out += _closure_aggs(f, ["cp", rv[2]], depth + 1)
+    return out
+
+
+def retain_sites(crate, f):
+    """(host fn, block, call) of every Vec::retain in f and in the closures built under f"""
+    from .rules.r3d import _closures_in
+    out = []
+    for g in [f] + [crate.fns[c] for c in _closures_in(crate, f) if c in crate.fns]:
+        for bb, c in g.calls():
+            if c.get("res") == "std::vec::Vec::<T, A>::retain":
+                out.append((g, bb, c))
+    return out
 
 
 def _param_of(f, op, depth=0, seen=None):
